@@ -800,14 +800,34 @@ func RunC14(rep *report.Report, tier string) {
 	for i := 0; i < n; i += per {
 		parts = append(parts, fmt.Sprintf("%d-%d", i, min(i+per, n)))
 	}
-	rep.Set("fault_cases", n)
+	parts = append(parts, "classes/send", "classes/recv")
+	rep.Set("fault_cases", n+2*len(statusClasses))
 	rep.Shards(parts, 14, nil)
-	rep.Set("rule", "one case per (fault side, message index, status code, follow-up) x schedule within the deviation bound; a burst of 7 requests is queued while the fault happens; non-trivial outcomes are distinct (fault, AwaitConverged result, final queues, follow-up observations) tuples")
+	rep.Set("rule", "one case per (fault side, message index, status code, follow-up) x schedule within the deviation bound, plus every non-OK status class at one fault point per side; a burst of 7 requests is queued while the fault happens; non-trivial outcomes are distinct (fault, AwaitConverged result, final queues, follow-up observations) tuples")
 	rep.Sample(map[string]any{"fault": faultCases(false)[7].String(), "schedule": "default + every single deviation"})
 }
 
 // ChildC14 runs a range of fault cases.
+// statusClasses are all non-OK gRPC status codes.
+var statusClasses = []codes.Code{codes.Canceled, codes.Unknown, codes.InvalidArgument, codes.DeadlineExceeded, codes.NotFound, codes.AlreadyExists, codes.PermissionDenied, codes.ResourceExhausted,
+	codes.FailedPrecondition, codes.Aborted, codes.OutOfRange, codes.Unimplemented, codes.Internal, codes.Unavailable, codes.DataLoss, codes.Unauthenticated}
+
 func ChildC14(rep *report.Report, tier, part string) {
+	if side, ok := strings.CutPrefix(part, "classes/"); ok {
+		// every status class at one fault point per side (default schedule; thorough: deviation bound 1), followed by
+		// Reset + reconnect + a further exchange
+		bound := 0
+		if tier == "thorough" {
+			bound = 1
+		}
+		dl := ribhist.Budget(tier, 80*time.Second, 20*time.Minute)
+		for _, c := range statusClasses {
+			fc := faultCase{side, 2, c, "reset"}
+			res := mc.DFS(mc.SchedConfig{Name: fc.String(), Body: faultBody(fc), Check: checkFault(fc), Outcome: outcome, Bound: bound, SwitchCost: 1, Deadline: dl})
+			merge(rep, "fault/"+fc.String(), res, bound)
+		}
+		return
+	}
 	var lo, hi int
 	fmt.Sscanf(part, "%d-%d", &lo, &hi)
 	cases := faultCases(tier == "thorough")
